@@ -170,6 +170,10 @@ def concurrent(ctx, per):
                                 count=per, pct=pct, est=120, timeout=1200)
                 except VHDied as e:
                     raise Inconclusive(f"harness died: {e}")
+                if isinstance(r, dict) and r.get("sched_deadlock"):
+                    # every thread of the scenario is blocked on a map lock held by another: no outcome at all
+                    ctx.violation({"kind": "deadlock-under-scheduler", "where": "c04"}, {"detail": str(r.get("detail", ""))[:1500]})
+                    break
                 if "distinct_schedules" not in r:
                     raise Inconclusive(f"harness refused the scenario: {str(r)[:300]}")
                 ctx.judged(per)
